@@ -132,6 +132,81 @@ def gen_pair(rng, maxn=8, **kw):
     return L, R
 
 
+XMLID_ = '{http://www.w3.org/XML/1998/namespace}id'
+
+
+def gen_idperm_pair(rng):
+    """Every element carries xml:id, so the matching is forced; the right document is a REARRANGEMENT: children
+    shuffled inside their parents and some moved to another parent (in front of, between or behind its children).
+    Exercises find_pos / align_children where in-order siblings, matched-but-not-yet-moved siblings and foreign
+    children mix."""
+    L = etree.Element('r')
+    n = 0
+    for pi in range(rng.randint(2, 3)):
+        par = etree.SubElement(L, rng.choice(['l', 'q']))
+        par.set(XMLID_, 'p%d' % pi)
+        for _ in range(rng.randint(1, 5)):
+            c = etree.SubElement(par, rng.choice(['c', 'x', 's']))
+            c.set(XMLID_, 'n%d' % n)
+            n += 1
+    R = deepcopy(L)
+    pars = list(R)
+    for par in pars:
+        kids = list(par)
+        if len(kids) > 1 and rng.random() < .7:
+            rng.shuffle(kids)
+            for k in kids:
+                par.remove(k)
+            for k in kids:
+                par.append(k)
+    for _ in range(rng.randint(0, 2)):
+        src = rng.choice(pars)
+        if len(src):
+            k = rng.choice(list(src))
+            dst = rng.choice(pars)
+            src.remove(k)
+            dst.insert(rng.randint(0, len(dst)), k)
+    if rng.random() < .3:
+        etree.SubElement(rng.choice(pars), 'u').text = 'new'
+    return L, R
+
+
+def gen_neardup_pair(rng):
+    """Paragraphs with NEAR-duplicates: the right document holds, next to the exact counterpart of a left paragraph, a
+    slightly edited copy placed before or after it; comments and elements with an xml:id unknown to the other side
+    stand between them (nodes without any candidate)."""
+    texts = ['Alpha beta gamma delta', 'One two three', 'Four five', 'Unrelated words here']
+    L = etree.Element('doc')
+    for j in range(rng.randint(2, 4)):
+        k = rng.random()
+        if k < .55:
+            etree.SubElement(L, 'p').text = rng.choice(texts)
+        elif k < .75:
+            L.append(etree.Comment(rng.choice(['remark', 'c'])))
+        else:
+            e = etree.SubElement(L, 'p')
+            e.set(XMLID_, 'k%d' % j)
+            e.text = rng.choice(texts)
+    etree.SubElement(L, 'x').text = 'tail'
+    R = deepcopy(L)
+    ps = [e for e in R if e.tag == 'p']
+    for _ in range(rng.randint(1, 2)):
+        if not ps:
+            break
+        e = rng.choice(ps)
+        d = deepcopy(e)
+        d.attrib.pop(XMLID_, None)
+        d.text = (d.text or '') + rng.choice(['!', '?', ' x'])
+        (e.addprevious if rng.random() < .6 else e.addnext)(d)
+    for c in [e for e in R if e.tag is etree.Comment]:
+        if rng.random() < .6:
+            R.remove(c)
+    for e in [e for e in R if isinstance(e.tag, str) and XMLID_ in e.attrib]:
+        if rng.random() < .4:
+            del e.attrib[XMLID_]
+    return L, R
+
+
 def gen_dup_pair(rng):
     """Documents full of DUPLICATE content (identical leaves / subtrees in several places), the right one derived by
     dropping or unwrapping wrappers, moving or copying subtrees: matching is by similarity, so equal content is matched
